@@ -15,6 +15,7 @@ func TestVerifReplay(t *testing.T) {
 		"VerifC15Thorough":       VerifC15Thorough,
 		"VerifC15DeepQuick":      VerifC15DeepQuick,
 		"VerifC15Stale":          VerifC15Stale,
+		"VerifC15Rollback":       VerifC15Rollback,
 		"VerifC15Deep":           VerifC15Deep,
 	})
 }
